@@ -233,8 +233,40 @@ func genGE(cfg *config, r *rng, i int, s *sink) string {
 		bearing := r.float01() * 360
 		scale := radius / 6378137.0
 		length *= scale
+		if r.chance(1, 8) {
+			// around the origin of the coordinate system: the equator and the prime meridian are
+			// ordinary places (coordinates change sign, or are exactly zero)
+			lat = pick(r, []float64{0, 0, 1e-4, -1e-4, 2e-5})
+			lon = pick(r, []float64{0, 0, 1e-4, -1e-4, -2e-5})
+			s.count("ge.line.origin")
+		}
 		lat2, lon2 := offsetPoint(lat, lon, bearing, length, radius)
+		if r.chance(1, 6) {
+			// exactly north-south or east-west: the two ends share a coordinate bit for bit
+			deg := length / radius * 180 / math.Pi
+			switch r.intn(4) {
+			case 0:
+				bearing, lat2, lon2 = 0, lat+deg, lon
+			case 1:
+				bearing, lat2, lon2 = 180, lat-deg, lon
+			case 2:
+				bearing, lat2, lon2 = 90, lat, lon+deg/math.Cos(lat*math.Pi/180)
+			default:
+				bearing, lat2, lon2 = 270, lat, lon-deg/math.Cos(lat*math.Pi/180)
+			}
+			if math.Abs(lat2) > 85 {
+				lat2 = lat
+				lon2 = lon + deg
+				bearing = 90
+			}
+			length = gcDistLL(lat, lon, lat2, lon2) * radius
+			s.count("ge.line.cardinal")
+		}
 		tol := math.Pow(10, -2+r.float01()*3.5) * scale // 1 cm .. ~30 m
+		if r.chance(1, 8) {
+			tol = 0.1 // exactly the documented default, with whatever radius is configured
+			s.count("ge.tol.default")
+		}
 		// position: before / beside / beyond the segment, 0..3 tolerances away
 		along := (r.float01()*1.6 - 0.3) * length
 		if r.chance(1, 4) {
@@ -287,7 +319,7 @@ func genGE(cfg *config, r *rng, i int, s *sink) string {
 			if fast {
 				span = math.Pow(10, -4+r.float01()*2.9) // < ~0.08 degrees
 			}
-			switch r.intn(4) {
+			switch r.intn(5) {
 			case 0:
 				lat2, lon2 = lat, lon+span
 				if lon2 > 180 {
@@ -304,6 +336,19 @@ func genGE(cfg *config, r *rng, i int, s *sink) string {
 					lat2 = -89.5
 				}
 				s.count("ge.dist.same_meridian")
+			case 4:
+				// the origin (0,0) and pairs either side of the prime meridian / the equator
+				switch r.intn(3) {
+				case 0:
+					lat, lon = 0, 0
+					lat2, lon2 = span*(r.float01()-0.3), span*(r.float01()-0.3)
+				case 1:
+					lon, lon2 = -span*r.float01(), span*r.float01()
+				default:
+					lat, lat2 = -span*r.float01(), span*r.float01()
+					lon2 = lon + span*(r.float01()-0.5)
+				}
+				s.count("ge.dist.zero_crossing")
 			case 2:
 				// (the fast method is specified away from the 180th meridian only)
 				if !fast {
@@ -381,11 +426,27 @@ func genGE(cfg *config, r *rng, i int, s *sink) string {
 		if r.chance(1, 6) {
 			dist = math.Pow(10, r.float01()*6)
 		}
+		if r.chance(1, 5) {
+			// the band around the horizon: on the ellipsoid it is up to ~40 km away from a quarter
+			// of the meridian, depending on centre latitude and azimuth
+			dist = 9.94e6 + r.float01()*1.2e5
+			if r.chance(1, 3) {
+				lat0 = pick(r, []float64{75, 15, -60, 0, 89, -89})
+			}
+			s.count("ge.rt.horizon_band")
+		}
 		var lat, lon float64
-		geodesic.WGS84.Direct(lat0, lon0, r.float01()*360, dist, &lat, &lon, nil)
-		var back float64
+		az := r.float01() * 360
+		if r.chance(1, 6) {
+			az = pick(r, []float64{0, 180, 90, 270})
+		}
+		geodesic.WGS84.Direct(lat0, lon0, az, dist, &lat, &lon, nil)
+		var back, m12 float64
 		geodesic.WGS84.Inverse(lat0, lon0, lat, lon, &back, nil, nil)
-		return "rt " + hexFloats(lat0, lon0, lat, lon, back)
+		// the horizon itself: where the geodesic scale M12 changes sign (from the geodesic library,
+		// not from the code under test)
+		geodesic.WGS84.GenInverse(lat0, lon0, lat, lon, nil, nil, nil, nil, &m12, nil, nil)
+		return "rt " + hexFloats(lat0, lon0, lat, lon, back, m12)
 	default: // ix
 		// two geodesic segments through a known point C at azimuths az1, az2 (crossing angle > 5 deg)
 		latC := (r.float01()*2 - 1) * 75
